@@ -41,7 +41,8 @@ def worker(job):
                 return [(0.65 * st["T"], agent.reply(req, st["vbs"]))]
             if m == "report":
                 return agent.report(req, rigp.REPORT_WRONG_DIGEST, flags=0, mac="empty", encrypt=False)
-            return agent.reply(req, st["vbs"])
+            es = st.get("es", 0)
+            return agent.reply(req, st["vbs"], error_status=es, error_index=(1 if es else 0))
         return agent.discovery_or(req, f)
     agent = rigp.Agent(handler, users=[cfg.user_keys()]).start()
     drv = driver.Driver(cfg, agent, timeout=0.25).create()
@@ -73,7 +74,9 @@ def worker(job):
             else:
                 vbs.append(B.enc_seq([name, TLV[k]]))
                 model.append((B.oid_text(o), k, None))
-        st.update(mode="silent" if mode == "silent_burst" else mode, vbs=vbs)
+        # the statement maps replies by their varbinds alone: a non-zero error-status (tooBig, noSuchName, genErr, ...) around
+        # the same varbinds changes nothing
+        st.update(mode="silent" if mode == "silent_burst" else mode, vbs=vbs, es=c.get("es", 0))
 
         def do_call(o):
             if o == "get":
@@ -149,7 +152,7 @@ def worker(job):
                 continue
             out = again[0] if not (again[0][0] == "exc" and again[0][1]["cls"] == "TimeoutError") else again[1]
         res["cases"] += 1
-        cls = "%s:%s%s:%s" % (op, mode, ":rel" if c.get("rel") else "", "".join(k[0] if k != "nsi" else "i" for k in vec) if len(vec) <= 4 else "len%d" % len(vec))
+        cls = "%s:%s%s%s:%s" % (op, mode, ":rel" if c.get("rel") else "", ":es" if c.get("es") else "", "".join(k[0] if k != "nsi" else "i" for k in vec) if len(vec) <= 4 else "len%d" % len(vec))
         res["classes"][cls] = 1
         if "agent_err" in st:
             res["inconclusive"].append("agent could not parse: %s" % st.pop("agent_err"))
@@ -229,6 +232,10 @@ def main():
     for op in ("get", "get_many"):
         for v in vecs:
             cases.append({"op": op, "mode": "ok", "vec": v})
+    # the same kind-vectors (length 0..3) inside replies with a non-zero error-status
+    for op in ("get", "get_many"):
+        for v in [v for v in vecs if len(v) <= 3][::2 if a.tier == "quick" else 1]:
+            cases.append({"op": op, "mode": "ok", "vec": v, "es": rng.choice([1, 2, 2, 3, 5, 5, 13, 18, 2147483647])})
     # replies whose 2nd.. names are RELATIVE-OIDs (runs of 2..7 of them, mostly real-valued so that the keys are visible)
     for _ in range(120 if a.tier == "quick" else 3000):
         cases.append({"op": "get_many", "mode": "ok", "rel": True,
